@@ -390,9 +390,14 @@ def guard_bypass(ctx, prog):
     gb(ctx, prog, "C03.GUARD-bypass")
 
 
+def can_recompute(ctx, prog):
+    from .c02 import dtab_can_recompute
+    dtab_can_recompute(ctx, prog, "C03.DTAB-can-recompute")
+
+
 for _f, _id in ((pdom_register, "C03.PDOM-register"), (data_scope, "C03.DATA-scope"),
                 (dom_lhs_change, "C03.DOM-lhs-change"), (dtab_invalid, "C03.DTAB-invalid"),
-                (guard_bypass, "C03.GUARD-bypass")):
+                (guard_bypass, "C03.GUARD-bypass"), (can_recompute, "C03.DTAB-can-recompute")):
     _f.rule_id = _id
 
-RULES = [pdom_register, data_scope, dom_lhs_change, dtab_invalid, guard_bypass]
+RULES = [pdom_register, data_scope, dom_lhs_change, dtab_invalid, guard_bypass, can_recompute]
